@@ -175,7 +175,7 @@ def run(ctx):
     quick = ctx.tier == "quick"
     rng = random.Random(ctx.seed)
     n_rt = 12 if quick else 150
-    B = Bounded("curves {IdealReservoir interpolator, SinglePhaseReservoir interpolator (pvt_gas.csv), tanh(sqrt x)}; M = 10^U(0,8), tau = 10^U(-2,4), window end / tau = U(0.6, 3), "
+    B = Bounded("curves {IdealReservoir interpolator, SinglePhaseReservoir interpolator (pvt_gas.csv), tanh(sqrt x)}; M = 10^U(0,8), tau = 10^U(-2,4) plus the corners of that box and (1e9, 1e-2), window end / tau = U(0.6, 3), "
                 "50..400 samples on uniform or sqrt-spaced times, noise-free; %d seeded round trips per curve (default bounds; tolerance 1e-5 for windows >= 1.5 tau, 1e-4 otherwise); "
                 "%d fits with finite / half-infinite bounds containing or excluding the truth, free and fixed tau (slack 1e-9; fixed tau: 1e-6 of the clipped closed-form optimum); "
                 "%d seeded bounds/guess pairs for regularize_initial_guess; malformed and well-formed Bounds" % (n_rt, (8 if quick else 60) * 7, 200 if quick else 3000))
@@ -194,6 +194,10 @@ def run(ctx):
             if k % 6 == 1:
                 cfg["n"] = 50
             emit("roundtrip", cfg)
+        # the corners of the (M, tau) box: extreme ratios M/tau are where an optimiser's scaling shows
+        for Mc, tc in ((1e8, 1e-2), (1.0, 1e4), (1e8, 1e4), (1.0, 1e-2), (1e9, 1e-2)):
+            for eot in (3.0, 1.0):
+                emit("roundtrip", {"curve": name, "M": Mc, "tau": tc, "end_over_tau": eot, "n": 300, "grid": "uniform"})
     # within bounds
     for _ in range(8 if quick else 60):
         c = draw(rng)
